@@ -11,20 +11,98 @@ theorem inv_init (c : Cfg) : Inv c init := wf3_init _ _
 theorem wf_save {c : Cfg} (h : 0 < c.ttl) (t : TtlMap) (id : Nat) : KeyWf3 c.ttl c.early (save c t id) :=
   wf3_save h t id
 
+@[simp] theorem save_now (c : Cfg) (t : TtlMap) (id : Nat) : (save c t id).now = t.now := rfl
+
+/-! ### `produce`: the function has run inside the call -/
+
+/-- the caller is handed what the execution produced — its result stamped with the instant it finished, its
+exception, or the exception of its store step -/
+theorem produce_out (c : Cfg) (s : St) (t2 : TtlMap) (o : Outcome) (r : Bool) :
+    (produce c s t2 o r).2 = ⟨o.result t2.now s.nexec, true, r⟩ := by
+  unfold produce; cases o <;> rfl
+
+theorem produce_now (c : Cfg) (s : St) (t2 : TtlMap) (o : Outcome) (r : Bool) :
+    (produce c s t2 o r).1.t.now = t2.now := by
+  unfold produce; cases o <;> cases r <;> rfl
+
+theorem produce_inflight (c : Cfg) (s : St) (t2 : TtlMap) (o : Outcome) (r : Bool) :
+    (produce c s t2 o r).1.inflight = s.inflight := by
+  unfold produce; cases o <;> rfl
+
+theorem produce_inv {c : Cfg} (httl : 0 < c.ttl) (s : St) {t2 : TtlMap} (h : KeyWf3 c.ttl c.early t2) (o : Outcome)
+    (r : Bool) : Inv c (produce c s t2 o r).1 := by
+  unfold produce
+  cases o <;> cases r <;> first
+    | exact wf_save httl _ _
+    | exact h
+    | exact wf3_remove_aux (wf_save httl _ _)
+    | exact wf3_remove_aux h
+
+/-- only outcome `ok` changes the entry under the result's key -/
+theorem produce_main (c : Cfg) (s : St) (t2 : TtlMap) (o : Outcome) (r : Bool) (ho : o ≠ .ok) :
+    (produce c s t2 o r).1.t.m kMain = t2.m kMain := by
+  unfold produce
+  cases o <;> cases r <;> first
+    | exact absurd rfl ho
+    | rfl
+    | (simp only []; rw [remove_m]; simp)
+
+/-! ### the five ways a call goes -/
+
+/-- the state in which a background refresh has just been started -/
+abbrev started (c : Cfg) (s : St) : St :=
+  { t := s.t.write kAux (.tok 1) (some c.early), nexec := s.nexec + 1, inflight := s.inflight ++ [(s.nexec, s.t.now)] }
+
+theorem call_cases (c : Cfg) (s : St) (o : Outcome) (d : Nat) :
+    -- nothing stored, a recalculation in flight: the call joins it
+    (cached3 s.t = none ∧ ∃ rid ts rest, s.inflight = (rid, ts) :: rest ∧ call c s o d = (s, ⟨.joined rid, false, false⟩)) ∨
+    -- nothing stored, nothing in flight: the call executes
+    (cached3 s.t = none ∧ s.inflight = [] ∧ call c s o d = produce c s (advance s.t d) o false) ∨
+    (∃ stamp id0 inner, cached3 s.t = some (stamp, id0, inner) ∧
+      -- served from the store, nothing started
+      (((s.t.now ≤ inner ∨ s.inflight ≠ [] ∨ (s.t.find kAux).isSome = true) ∧
+          call c s o d = (s, ⟨.stored stamp id0, false, false⟩)) ∨
+       (inner < s.t.now ∧ s.inflight = [] ∧ (s.t.find kAux).isSome = false ∧
+         -- a background refresh is started, served from the store
+         ((c.bg = true ∧ call c s o d = (started c s, ⟨.stored stamp id0, false, true⟩)) ∨
+         -- a foreground refresh runs inside the call
+          (c.bg = false ∧ call c s o d = produce c s (advance (s.t.write kAux (.tok 1) (some c.early)) d) o true))))) := by
+  unfold call
+  cases hc : cached3 s.t with
+  | none =>
+    cases hi : s.inflight with
+    | nil => exact Or.inr (Or.inl ⟨rfl, rfl, rfl⟩)
+    | cons p rest =>
+      obtain ⟨rid, ts⟩ := p
+      exact Or.inl ⟨rfl, rid, ts, rest, rfl, rfl⟩
+  | some p =>
+    obtain ⟨stamp, id0, inner⟩ := p
+    refine Or.inr (Or.inr ⟨stamp, id0, inner, rfl, ?_⟩)
+    simp only []
+    by_cases h1 : s.t.now ≤ inner
+    · rw [if_pos h1]; exact Or.inl ⟨Or.inl h1, rfl⟩
+    · rw [if_neg h1]
+      by_cases h2 : s.inflight ≠ []
+      · rw [if_pos h2]; exact Or.inl ⟨Or.inr (Or.inl h2), rfl⟩
+      · rw [if_neg h2]
+        by_cases h3 : (s.t.find kAux).isSome = true
+        · rw [if_pos h3]; exact Or.inl ⟨Or.inr (Or.inr h3), rfl⟩
+        · rw [if_neg h3]
+          refine Or.inr ⟨by omega, by simpa using h2, by simpa using h3, ?_⟩
+          cases hb : c.bg
+          · exact Or.inr ⟨rfl, by simp⟩
+          · exact Or.inl ⟨rfl, by simp⟩
+
+/-! ### invariants -/
+
 theorem inv_call {c : Cfg} (httl : 0 < c.ttl) {s : St} (h : Inv c s) (o : Outcome) (d : Nat) :
     Inv c (call c s o d).1 := by
-  unfold call
-  split
-  · cases o <;> first | exact wf_save httl _ _ | exact wf3_advance h d
-  · split
-    · exact h
-    · split
-      · exact h
-      · split
-        · exact wf3_write_aux h _ _
-        · cases o <;> first
-            | exact wf3_remove_aux (wf_save httl _ _)
-            | exact wf3_remove_aux (wf3_advance (wf3_write_aux h _ _) d)
+  rcases call_cases c s o d with ⟨_, _, _, _, _, hcall⟩ | ⟨_, _, hcall⟩ | ⟨_, _, _, _, ⟨_, hcall⟩ | ⟨_, _, _, ⟨_, hcall⟩ | ⟨_, hcall⟩⟩⟩
+  · rw [hcall]; exact h
+  · rw [hcall]; exact produce_inv httl s (wf3_advance h d) o false
+  · rw [hcall]; exact h
+  · rw [hcall]; exact wf3_write_aux h _ _
+  · rw [hcall]; exact produce_inv httl s (wf3_advance (wf3_write_aux h _ _) d) o true
 
 theorem inv_done {c : Cfg} (httl : 0 < c.ttl) {s : St} (h : Inv c s) (i : Nat) (o : Outcome) :
     Inv c (done c s i o).1 := by
@@ -41,78 +119,54 @@ theorem inv_step {c : Cfg} (httl : 0 < c.ttl) (s : St) (op : DOp) (h : Inv c s) 
   | adv dt => exact wf3_advance h dt
   | done i o => exact inv_done httl h i o
 
-@[simp] theorem save_now (c : Cfg) (t : TtlMap) (id : Nat) : (save c t id).now = t.now := rfl
-
-/-- the clock after a call is the instant its answer was handed out -/
+/-- the clock after a call is the instant its answer was handed out (a call that joins a recalculation is parked at
+the instant it began; it is answered at the `done`) -/
 theorem call_now (c : Cfg) (s : St) (o : Outcome) (d : Nat) :
     (call c s o d).1.t.now = servedAt s.t.now d (call c s o d).2 := by
-  unfold call servedAt
-  split
-  · cases o <;> simp
-  · split
-    · simp
-    · split
-      · simp
-      · split
-        · simp
-        · cases o <;> simp
-
-/-- a value handed out by a call that found nothing stored is the fresh product of its own execution -/
-theorem call_none_value {c : Cfg} {s : St} (o : Outcome) (d : Nat) {st id : Nat} (hc : cached3 s.t = none)
-    (hr : (call c s o d).2.res = .fresh st id ∨ (call c s o d).2.res = .stored st id) :
-    st = s.t.now + d ∧ (call c s o d).2.exec = true ∧ (call c s o d).2.started = false ∧
-      (call c s o d).2.res = .fresh st id := by
-  revert hr
-  unfold call
-  simp only [hc]
-  cases o <;> simp <;> intro h1 h2 <;> simp [h1, h2]
-
-/-- a value handed out by a call that found a result stored is that result, nothing having been executed — or,
-after a foreground refresh, the fresh result of that refresh -/
-theorem call_some_value {c : Cfg} {s : St} (o : Outcome) (d : Nat) {st id stamp id0 inner : Nat}
-    (hc : cached3 s.t = some (stamp, id0, inner))
-    (hr : (call c s o d).2.res = .fresh st id ∨ (call c s o d).2.res = .stored st id) :
-    (st = stamp ∧ (call c s o d).2.res = .stored st id ∧ (call c s o d).2.exec = false) ∨
-    (st = s.t.now + d ∧ (call c s o d).2.res = .fresh st id ∧ (call c s o d).2.exec = true ∧
-      (call c s o d).2.started = true) := by
-  revert hr
-  unfold call
-  simp only [hc]
-  by_cases h1 : s.t.now ≤ inner
-  · rw [if_pos h1]; simp; intro h2 h3; simp [h2, h3]
-  · rw [if_neg h1]
-    by_cases h2 : (s.t.find kAux).isSome = true
-    · rw [if_pos h2]; simp; intro h2 h3; simp [h2, h3]
-    · rw [if_neg h2]
-      cases hb : c.bg
-      · simp only [Bool.false_eq_true, if_false]
-        cases o <;> simp <;> intro h2 h3 <;> simp [h2, h3]
-      · simp; intro h2 h3; simp [h2, h3]
+  unfold servedAt
+  rcases call_cases c s o d with ⟨_, _, _, _, _, hcall⟩ | ⟨_, _, hcall⟩ | ⟨_, _, _, _, ⟨_, hcall⟩ | ⟨_, _, _, ⟨_, hcall⟩ | ⟨_, hcall⟩⟩⟩
+  · rw [hcall]; simp
+  · rw [hcall, produce_now, produce_out]; simp
+  · rw [hcall]; simp
+  · rw [hcall]; simp
+  · rw [hcall, produce_now, produce_out]; simp
 
 /-- whatever value `(st, id)` a call hands out — fresh after an execution of any duration (also a foreground refresh),
 or from the store — was produced / stored at an instant `st` not after the instant at which it is handed out, and is
-younger than ttl at that instant; a value from the store is handed out at the instant the call began -/
+younger than ttl at that instant; a fresh value is stamped with that instant; a value from the store is handed out at
+the instant the call began, nothing having run inside the call -/
 theorem call_age {c : Cfg} (httl : 0 < c.ttl) {s : St} (h : Inv c s) (o : Outcome) (d : Nat) {st id : Nat}
     (hr : (call c s o d).2.res = .fresh st id ∨ (call c s o d).2.res = .stored st id) :
     st ≤ servedAt s.t.now d (call c s o d).2 ∧ servedAt s.t.now d (call c s o d).2 < st + c.ttl ∧
     ((call c s o d).2.res = .fresh st id → st = servedAt s.t.now d (call c s o d).2) ∧
     ((call c s o d).2.res = .stored st id → (call c s o d).2.exec = false) := by
-  cases hc : cached3 s.t with
-  | none =>
-    obtain ⟨h1, h2, _, h4⟩ := call_none_value o d hc hr
+  have hfresh : ∀ (t2 : TtlMap) (r : Bool), t2.now = s.t.now + d →
+      ((produce c s t2 o r).2.res = .fresh st id ∨ (produce c s t2 o r).2.res = .stored st id) →
+      st ≤ servedAt s.t.now d (produce c s t2 o r).2 ∧ servedAt s.t.now d (produce c s t2 o r).2 < st + c.ttl ∧
+      ((produce c s t2 o r).2.res = .fresh st id → st = servedAt s.t.now d (produce c s t2 o r).2) ∧
+      ((produce c s t2 o r).2.res = .stored st id → (produce c s t2 o r).2.exec = false) := by
+    intro t2 r hn hv
+    rw [produce_out] at hv ⊢
     unfold servedAt
-    rw [h2, h4]
-    simp
-    omega
-  | some p =>
-    obtain ⟨stamp, id0, inner⟩ := p
+    cases o <;> simp [Outcome.result, hn] at hv ⊢ <;> omega
+  have hstored : ∀ (s' : St) (b : Bool) stamp id0 inner, cached3 s.t = some (stamp, id0, inner) →
+      ((⟨.stored stamp id0, false, b⟩ : CallOut).res = .fresh st id ∨ (⟨.stored stamp id0, false, b⟩ : CallOut).res = .stored st id) →
+      st ≤ servedAt s.t.now d ⟨.stored stamp id0, false, b⟩ ∧ servedAt s.t.now d ⟨.stored stamp id0, false, b⟩ < st + c.ttl ∧
+      ((⟨.stored stamp id0, false, b⟩ : CallOut).res = .fresh st id → st = servedAt s.t.now d ⟨.stored stamp id0, false, b⟩) ∧
+      ((⟨.stored stamp id0, false, b⟩ : CallOut).res = .stored st id → (⟨.stored stamp id0, false, b⟩ : CallOut).exec = false) := by
+    intro _ b stamp id0 inner hc hv
     have hs := cached3_spec h hc
-    have hb := hs.2.1
-    have hy := hs.2.2.1
-    unfold servedAt
-    rcases call_some_value o d hc hr with ⟨h1, h2, h3⟩ | ⟨h1, h2, h3, _⟩
-    · subst h1; rw [h3, h2]; simp; exact ⟨hb, hy⟩
-    · rw [h3, h2]; simp; omega
+    simp at hv
+    obtain ⟨h1, _⟩ := hv
+    subst h1
+    simp [servedAt]
+    exact ⟨hs.2.1, hs.2.2.1⟩
+  rcases call_cases c s o d with ⟨_, _, _, _, _, hcall⟩ | ⟨_, _, hcall⟩ | ⟨stamp, id0, inner, hc, ⟨_, hcall⟩ | ⟨_, _, _, ⟨_, hcall⟩ | ⟨_, hcall⟩⟩⟩
+  · rw [hcall] at hr; simp at hr
+  · rw [hcall] at hr ⊢; exact hfresh _ _ (by simp) hr
+  · rw [hcall] at hr ⊢; exact hstored s false stamp id0 inner hc hr
+  · rw [hcall] at hr ⊢; exact hstored s true stamp id0 inner hc hr
+  · rw [hcall] at hr ⊢; exact hfresh _ _ (by simp) hr
 
 /-- a stored result that is not older than `early_ttl` is handed out without executing anything and
 without touching the state (immediately: no time passes) -/
@@ -126,24 +180,51 @@ theorem call_young {c : Cfg} {s : St} (h : Inv c s) (o : Outcome) (d : Nat) {st 
   simp [this]
 
 /-- a call that finds a stored result answers with it — or, when it waited for a foreground refresh, with what that
-refresh produced; so unless a foreground refresh raises, the answer is the stored result or the refreshed one -/
+refresh produced -/
 theorem call_from_store {c : Cfg} {s : St} (o : Outcome) (d : Nat) {st id x : Nat}
     (hc : cached3 s.t = some (st, id, x)) :
     ((call c s o d).2.res = .stored st id ∧ (call c s o d).2.exec = false) ∨
     (c.bg = false ∧ (call c s o d).2.exec = true ∧ (call c s o d).2.started = true ∧
       (call c s o d).2.res = o.result (s.t.now + d) s.nexec) := by
+  rcases call_cases c s o d with ⟨hn, _⟩ | ⟨hn, _⟩ | ⟨stamp, id0, inner, hc', ⟨_, hcall⟩ | ⟨_, _, _, ⟨_, hcall⟩ | ⟨hb, hcall⟩⟩⟩
+  · rw [hn] at hc; simp at hc
+  · rw [hn] at hc; simp at hc
+  · rw [hc] at hc'; simp at hc'; obtain ⟨h1, h2, _⟩ := hc'; subst h1 h2
+    rw [hcall]; exact Or.inl ⟨rfl, rfl⟩
+  · rw [hc] at hc'; simp at hc'; obtain ⟨h1, h2, _⟩ := hc'; subst h1 h2
+    rw [hcall]; exact Or.inl ⟨rfl, rfl⟩
+  · rw [hcall, produce_out]; exact Or.inr ⟨hb, rfl, rfl, by simp⟩
+
+/-- a call that finds a stored result while a recalculation of the key is in flight is answered with the stored result
+and touches nothing (it does not even try the lock key) -/
+theorem call_stale_inflight {c : Cfg} {s : St} (o : Outcome) (d : Nat) {st id x : Nat}
+    (hc : cached3 s.t = some (st, id, x)) (hi : s.inflight ≠ []) :
+    call c s o d = (s, ⟨.stored st id, false, false⟩) := by
   unfold call
   simp only [hc]
-  split
-  · exact Or.inl ⟨rfl, rfl⟩
-  · split
-    · exact Or.inl ⟨rfl, rfl⟩
-    · split
-      · exact Or.inl ⟨rfl, rfl⟩
-      · rename_i hbg
-        right
-        refine ⟨by simpa using hbg, ?_⟩
-        cases o <;> simp [Outcome.result]
+  by_cases h1 : s.t.now ≤ x
+  · rw [if_pos h1]
+  · rw [if_neg h1, if_pos hi]
+
+/-- a call that finds nothing stored while a recalculation of the key is in flight joins it: nothing is executed,
+nothing is started, the state is untouched -/
+theorem call_join {c : Cfg} {s : St} (o : Outcome) (d : Nat) {rid ts : Nat} {rest : List (Nat × Nat)}
+    (hc : cached3 s.t = none) (hi : s.inflight = (rid, ts) :: rest) :
+    call c s o d = (s, ⟨.joined rid, false, false⟩) := by
+  unfold call
+  simp only [hc, hi]
+
+/-- conversely a call is parked only on a recalculation that is in flight, having found nothing stored -/
+theorem call_joined {c : Cfg} {s : St} (o : Outcome) (d : Nat) {rid : Nat}
+    (hr : (call c s o d).2.res = .joined rid) :
+    cached3 s.t = none ∧ (∃ ts rest, s.inflight = (rid, ts) :: rest) ∧ call c s o d = (s, ⟨.joined rid, false, false⟩) := by
+  rcases call_cases c s o d with ⟨hn, rid', ts, rest, hi, hcall⟩ | ⟨_, _, hcall⟩ | ⟨_, _, _, _, ⟨_, hcall⟩ | ⟨_, _, _, ⟨_, hcall⟩ | ⟨_, hcall⟩⟩⟩
+  · rw [hcall] at hr; simp at hr; subst hr
+    exact ⟨hn, ⟨ts, rest, hi⟩, hcall⟩
+  · rw [hcall, produce_out] at hr; cases o <;> simp [Outcome.result] at hr
+  · rw [hcall] at hr; simp at hr
+  · rw [hcall] at hr; simp at hr
+  · rw [hcall, produce_out] at hr; cases o <;> simp [Outcome.result] at hr
 
 /-- only an execution with outcome `ok` changes the entry under the result's key: a call whose execution
 fails, is turned down by the condition or fails in its store step leaves it as it was -/
@@ -151,18 +232,12 @@ theorem call_main {c : Cfg} (hearly : 0 < c.early) (s : St) (o : Outcome) (d : N
     (call c s o d).1.t.m kMain = s.t.m kMain := by
   have hw : (s.t.write kAux (.tok 1) (some c.early)).m kMain = s.t.m kMain := by
     rw [write_m _ _ _ hearly]; simp
-  unfold call
-  split
-  · cases o <;> first | exact absurd rfl ho | rfl
-  · split
-    · rfl
-    · split
-      · rfl
-      · split
-        · exact hw
-        · cases o <;> first
-            | exact absurd rfl ho
-            | (simp only []; rw [remove_m]; simpa using hw)
+  rcases call_cases c s o d with ⟨_, _, _, _, _, hcall⟩ | ⟨_, _, hcall⟩ | ⟨_, _, _, _, ⟨_, hcall⟩ | ⟨_, _, _, ⟨_, hcall⟩ | ⟨_, hcall⟩⟩⟩
+  · rw [hcall]
+  · rw [hcall, produce_main _ _ _ _ _ ho]; rfl
+  · rw [hcall]
+  · rw [hcall]; exact hw
+  · rw [hcall, produce_main _ _ _ _ _ ho]; simpa using hw
 
 theorem done_main {c : Cfg} (s : St) (i : Nat) (o : Outcome) (ho : o ≠ .ok) :
     (done c s i o).1.t.m kMain = s.t.m kMain ∧ (done c s i o).1.t.now = s.t.now := by
@@ -173,117 +248,61 @@ theorem done_main {c : Cfg} (s : St) (i : Nat) (o : Outcome) (ho : o ≠ .ok) :
       | exact absurd rfl ho
       | (refine ⟨?_, rfl⟩; simp only []; rw [remove_m]; simp)
 
-/-- the answer of a call that finds nothing stored: the result of its own execution (stamped with the instant it
-finished) or the exception of its store step -/
-theorem call_empty {c : Cfg} {s : St} (o : Outcome) (d : Nat) (hc : cached3 s.t = none) :
-    (call c s o d).2.exec = true ∧
-    ((o = .ok ∨ o = .rejected) → (call c s o d).2.res = .fresh (s.t.now + d) s.nexec) ∧
-    (∀ st l, o = .storeFails st l → (call c s o d).2.res = .storeErr l) := by
-  unfold call
-  simp only [hc]
-  cases o <;> simp
-
-/-- whenever the function runs inside a call — because nothing was stored, or as a foreground refresh — the caller is
-handed what that execution produced: its result (stamped with the instant it finished), its exception, or the
-exception of its store step -/
+/-- whenever the function runs inside a call — because nothing was stored (and nothing was in flight), or as a
+foreground refresh — the caller is handed what that execution produced: its result (stamped with the instant it
+finished), its exception, or the exception of its store step -/
 theorem call_answer (c : Cfg) (s : St) (o : Outcome) (d : Nat) (hx : (call c s o d).2.exec = true) :
-    (call c s o d).2.res = o.result (s.t.now + d) s.nexec ∧
+    (call c s o d).2.res = o.result (s.t.now + d) s.nexec ∧ s.inflight = [] ∧
     (((call c s o d).2.started = false ∧ cached3 s.t = none) ∨
      ((call c s o d).2.started = true ∧ c.bg = false ∧ ∃ st id x, cached3 s.t = some (st, id, x) ∧ x < s.t.now)) := by
-  revert hx
+  rcases call_cases c s o d with ⟨_, _, _, _, _, hcall⟩ | ⟨hn, hi, hcall⟩ | ⟨stamp, id0, inner, hc, ⟨_, hcall⟩ | ⟨h1, hi, _, ⟨_, hcall⟩ | ⟨hb, hcall⟩⟩⟩
+  · rw [hcall] at hx; simp at hx
+  · rw [hcall, produce_out]; exact ⟨by simp, hi, Or.inl ⟨rfl, hn⟩⟩
+  · rw [hcall] at hx; simp at hx
+  · rw [hcall] at hx; simp at hx
+  · rw [hcall, produce_out]; exact ⟨by simp, hi, Or.inr ⟨rfl, hb, stamp, id0, inner, hc, h1⟩⟩
+
+/-- a call that finds nothing stored and nothing in flight executes -/
+theorem call_cold {c : Cfg} {s : St} (o : Outcome) (d : Nat) (hc : cached3 s.t = none) (hi : s.inflight = []) :
+    call c s o d = produce c s (advance s.t d) o false := by
   unfold call
-  cases hc : cached3 s.t with
-  | none =>
-    simp only []
-    intro _
-    cases o <;> simp [Outcome.result]
-  | some p =>
-    obtain ⟨st, id, x⟩ := p
-    simp only []
-    by_cases h1 : s.t.now ≤ x
-    · rw [if_pos h1]; simp
-    · rw [if_neg h1]
-      by_cases h2 : (s.t.find kAux).isSome = true
-      · rw [if_pos h2]; simp
-      · rw [if_neg h2]
-        cases hb : c.bg
-        · simp only [Bool.false_eq_true, if_false]
-          intro _
-          have : x < s.t.now := by omega
-          have hex : ∃ st_1 id_1 x_1, (st = st_1 ∧ id = id_1 ∧ x = x_1) ∧ x_1 < s.t.now := ⟨st, id, x, ⟨rfl, rfl, rfl⟩, this⟩
-          cases o <;> simp [Outcome.result] <;> exact hex
-        · simp
+  simp only [hc, hi]
 
-/-! ### at most one refresh at a time -/
+/-! ### at most one recalculation at a time — unconditionally -/
 
-/-- either nothing is in flight, or exactly one refresh is and the lock it took (deadline = its start
-+ `early_ttl`) is still the entry under the lock key -/
-def Single (c : Cfg) (s : St) : Prop :=
-  s.inflight = [] ∨ ∃ id ts v, s.inflight = [(id, ts)] ∧ s.t.m kAux = some ⟨v, some (ts + c.early)⟩
+/-- either nothing is in flight, or exactly one recalculation is -/
+def Single (s : St) : Prop := s.inflight.length ≤ 1
 
-/-- the hypothesis "a refresh completes within early_ttl": whenever a call is made, every refresh in
-flight was started less than `early_ttl` ago -/
-def Timely (c : Cfg) (s : St) (op : DOp) : Prop :=
-  ∀ o d, op = .call o d → ∀ x ∈ s.inflight, s.t.now < x.2 + c.early
+theorem single_init : Single init := by simp [Single, init]
 
-theorem single_init (c : Cfg) : Single c init := Or.inl rfl
+theorem single_call {c : Cfg} {s : St} (h : Single s) (o : Outcome) (d : Nat) : Single (call c s o d).1 := by
+  rcases call_cases c s o d with ⟨_, _, _, _, _, hcall⟩ | ⟨_, _, hcall⟩ | ⟨_, _, _, _, ⟨_, hcall⟩ | ⟨_, hi, _, ⟨_, hcall⟩ | ⟨_, hcall⟩⟩⟩
+  · rw [hcall]; exact h
+  · rw [hcall]; unfold Single; rw [produce_inflight]; exact h
+  · rw [hcall]; exact h
+  · rw [hcall]; simp [Single, hi]
+  · rw [hcall]; unfold Single; rw [produce_inflight]; exact h
 
-theorem single_call {c : Cfg} (hearly : 0 < c.early) {s : St} (h : Single c s) (o : Outcome) (d : Nat)
-    (ht : Timely c s (.call o d)) : Single c (call c s o d).1 := by
-  unfold call
-  split
-  · cases o <;> exact h
-  · split
-    · exact h
-    · split
-      · exact h
-      · rename_i hlock
-        -- the lock is free: so nothing can be in flight (its lock would still be live)
-        have hempty : s.inflight = [] := by
-          rcases h with h | ⟨id, ts, v, h1, h2⟩
-          · exact h
-          · exfalso
-            have hlive : s.t.now < ts + c.early := by
-              have := ht o d rfl (id, ts) (by simp [h1])
-              simpa using this
-            have : s.t.find kAux = some ⟨v, some (ts + c.early)⟩ :=
-              find_some.mpr ⟨h2, live_some.mpr hlive⟩
-            simp [this] at hlock
-        split
-        · right
-          refine ⟨s.nexec, s.t.now, .tok 1, by simp [hempty], ?_⟩
-          simp only []
-          rw [write_m _ _ _ hearly]
-          simp
-        · cases o <;> exact Or.inl hempty
-
-theorem single_done {c : Cfg} {s : St} (h : Single c s) (i : Nat) (o : Outcome) : Single c (done c s i o).1 := by
+theorem single_done {c : Cfg} {s : St} (h : Single s) (i : Nat) (o : Outcome) : Single (done c s i o).1 := by
   unfold done
   split
   · exact h
-  · rename_i id ts hi
-    have hnil : s.inflight.eraseIdx i = [] := by
-      rcases h with h | ⟨id', ts', v, h1, _⟩
-      · simp [h] at hi
-      · rw [h1] at hi ⊢
-        cases i with
-        | zero => rfl
-        | succ n => simp at hi
-    cases o <;> exact Or.inl hnil
+  · have : (s.inflight.eraseIdx i).length ≤ 1 := Nat.le_trans (List.length_eraseIdx_le _ _) h
+    cases o <;> exact this
 
-theorem single_step {c : Cfg} (hearly : 0 < c.early) (s : St) (op : DOp) (h : Single c s) (ht : Timely c s op) :
-    Single c (step c s op).1 := by
+theorem single_step {c : Cfg} (s : St) (op : DOp) (h : Single s) : Single (step c s op).1 := by
   cases op with
-  | call o d => exact single_call hearly h o d ht
-  | adv dt =>
-    rcases h with h | ⟨id, ts, v, h1, h2⟩
-    · exact Or.inl h
-    · exact Or.inr ⟨id, ts, v, h1, h2⟩
+  | call o d => exact single_call h o d
+  | adv dt => exact h
   | done i o => exact single_done h i o
 
-theorem single_length {c : Cfg} {s : St} (h : Single c s) : s.inflight.length ≤ 1 := by
-  rcases h with h | ⟨id, ts, v, h1, _⟩
-  · simp [h]
-  · simp [h1]
+/-- a refresh task is created only when nothing is in flight -/
+theorem call_started_alone {c : Cfg} {s : St} (o : Outcome) (d : Nat) (hs : (call c s o d).2.started = true) :
+    s.inflight = [] := by
+  rcases call_cases c s o d with ⟨_, _, _, _, _, hcall⟩ | ⟨_, hi, hcall⟩ | ⟨_, _, _, _, ⟨_, hcall⟩ | ⟨_, hi, _, _⟩⟩
+  · rw [hcall] at hs; simp at hs
+  · exact hi
+  · rw [hcall] at hs; simp at hs
+  · exact hi
 
 end CashewsVerif.Decor.Early
